@@ -1817,10 +1817,11 @@ class _Inliner:
                 if c is None or not isinstance(getattr(n, "ctx", None), ast.Load):
                     return n
                 callee, skip = c
-                b = _body_wo_doc(callee)
                 a = callee.args
-                if not (len(b) == 1 and isinstance(b[0], ast.Return) and b[0].value is not None) or a.vararg or a.kwarg or a.kwonlyargs or a.defaults:
+                eb_ = _as_expr_body(callee)   # `return E`, or guard returns folded into one conditional expression
+                if eb_ is None or a.vararg or a.kwarg or a.kwonlyargs or a.defaults:
                     return n
+                b = [ast.Return(value=eb_)]
                 params = [x.arg for x in [*a.posonlyargs, *a.args]]
                 if skip:
                     params = params[1:]
@@ -2078,6 +2079,12 @@ class _LocalAnnotations(ast.NodeTransformer):
         return a
 
 
+def _is_constant_table(e: ast.AST) -> bool:
+    "a tuple / list display of constants, names and attribute chains (a table of other module-level constants): safe to write at its uses"
+    return isinstance(e, (ast.Tuple, ast.List)) and 1 <= len(e.elts) <= 12 and all(
+        isinstance(x, ast.Constant) or (isinstance(x, (ast.Name, ast.Attribute)) and _dotted(x) is not None) or _is_constant_table(x) for x in e.elts)
+
+
 def _is_literal_constant(e: ast.AST) -> bool:
     "a literal, or arithmetic / a tuple of literals (10**5, -1, (0, 1)): immutable and effect-free"
     if isinstance(e, ast.Constant):
@@ -2101,7 +2108,8 @@ def _inline_new_module_constants(tree: ast.Module, modname: str, log: list[str])
     for st in tree.body:
         if isinstance(st, (ast.Assign, ast.AnnAssign)) and getattr(st, "value", None) is not None:
             tg = st.targets if isinstance(st, ast.Assign) else [st.target]
-            if len(tg) == 1 and isinstance(tg[0], ast.Name) and tg[0].id not in known and _is_literal_constant(st.value):
+            if len(tg) == 1 and isinstance(tg[0], ast.Name) and tg[0].id not in known and (
+                    _is_literal_constant(st.value) or (isinstance(st.value, ast.Tuple) and _is_constant_table(st.value))):
                 cands[tg[0].id] = st.value
     if not cands:
         return
